@@ -274,6 +274,12 @@ fn display_arms(imp: &ItemImpl) -> Option<Vec<Value>> {
         };
         let mac = match &*arm.body {
             Expr::Macro(em) => &em.mac,
+            // prettyplease wraps a long arm in a block: `=> { write!(..) }`
+            Expr::Block(b) if b.block.stmts.len() == 1 => match &b.block.stmts[0] {
+                syn::Stmt::Expr(Expr::Macro(em), None) => &em.mac,
+                syn::Stmt::Macro(sm) => &sm.mac,
+                _ => return None,
+            },
             _ => return None,
         };
         if !mac.path.is_ident("write") {
